@@ -194,7 +194,7 @@ def concrete_mismatch(item, env_values, prop="W"):
     item.meta = meta
     el = "[" + "; ".join(fa.zc(v) for v in env_values) + "]"
     n = meta["entities"]
-    rc, outs, text = H.coq_eval(defs, [f"conc_prog bp_{item.id} {n + 3}%nat ds_{item.id} qs_{item.id} rs_{item.id} (env_of {el})"],
+    rc, outs, text = H.coq_eval(defs, [f"conc_progb bp_{item.id} {n + 3}%nat ds_{item.id} qs_{item.id} rs_{item.id} bqs_{item.id} (env_of {el})"],
                                 S.EXTRA, tag=f"w{item.id}")
     import re
 
